@@ -336,11 +336,16 @@ func init() {
 	}, "errors.Is")
 	reg(func(w *Worker, _ *frame, fn *ssa.Function, a []Value) Value {
 		iv := a[0].(IfaceV)
-		if iv.T == nil {
-			return w.mkStr("<nil>")
-		}
-		return w.mkStr(iv.T.String())
-	}, "internal/reflectlite.TypeString")
+		return IfaceV{T: stubType, V: rtypeVal{iv.T}}
+	}, "internal/reflectlite.TypeOf")
+}
+
+type rtypeVal struct{ T types.Type }
+
+// RTypeMethod is a method of the reflectlite type descriptor stand-in.
+type RTypeMethod struct {
+	Name string
+	T    types.Type
 }
 
 var stubType = types.NewNamed(types.NewTypeName(0, nil, "verifStubObject", nil), types.NewStruct(nil, nil), nil)
